@@ -29,8 +29,8 @@ manifest = {
     "version": 1,
     "setup_cmd": "./setup.sh",
     "hooks": {
-        "guard": "cargo feature `verif-hooks` (midnight-proofs, midnight-circuits)",
-        "enable": "the harness crate /verif/harness depends on /repo's crates by path with feature `hooks` = [midnight-proofs/verif-hooks, midnight-circuits/verif-hooks]; ./run builds with --features hooks",
+        "guard": "cargo feature `verif-hooks` (midnight-proofs, midnight-circuits, midnight-aggregator)",
+        "enable": "the harness crate /verif/harness depends on /repo's crates by path with feature `hooks` = [midnight-proofs/verif-hooks, midnight-circuits/verif-hooks, midnight-aggregator/verif-hooks]; ./run builds with --features hooks",
         "baseline_off_cmd": "cd /repo && cargo nextest run --workspace --no-fail-fast --test-threads 8 --offline || cargo test --workspace --no-fail-fast --offline",
         "source_commits": spec["hook_commits"],
         "add_only": True,
